@@ -7,6 +7,7 @@ Require Import Aurora.Base.Corr Aurora.Consts.
 Require Import Aurora.C02.Model Aurora.C02.Spec Aurora.C02.Stream Aurora.C02.Proofs.
 Require Import Aurora.C07.Model Aurora.C07.Slices Aurora.C07.Proofs Aurora.C07.Main.
 Require Import Aurora.C01.Model Aurora.C01.Proofs.
+Require Aurora.C02.Main.
 Local Open Scope Z_scope.
 
 Lemma concat_group {A} k (l : list A) : (0 < k)%nat -> concat (group k l) = l.
@@ -74,20 +75,95 @@ Proof.
       injection Hit as <-. split.
       + do 7 apply wf_mono. exists []. split; [reflexivity | cbn; lia].
       + intros c Hc. apply Hlog. left. rewrite Hnil. cbn [chunks_of map]. exact Hc.
-    - destruct (iter_level_ok H cs b refLen Hrl Hb Hbdef 7 0 leaves (u_log u)) as [Hok Hch].
-      + rewrite Eleaves. now apply leaves_level_ok.
+    - destruct (iter_level_ok H cs b refLen Hrl Hb Hbdef Hlen 7 0 leaves (u_log u)) as [Hok Hch].
+      + rewrite Eleaves. now apply (leaves_level_ok H).
       + intros t0 Ht0 c Hc. rewrite Eleaves in Ht0. apply in_map_iff in Ht0 as (d & <- & Hd). apply Hlog. left.
         cbn [tree_chunks] in Hc. destruct Hc as [<-|[]]. apply in_map_iff. exists d. split; [reflexivity | exact Hd].
-      + intros p Hp. apply Hlog. right. rewrite <- Eleaves. exact Hp.
+      + intros p Hp. apply Hlog. right. exact Hp.
       + rewrite Hit in Hok, Hch. destruct Hok as (front & last & Hfl & _ & Hwl & _).
         destruct front as [|f0 front']; [|destruct front'; discriminate].
         injection Hfl as <-. split; [exact Hwl|]. intros c Hc. apply (Hch t); [now left | exact Hc]. }
   destruct Hwf as [Hwf Hin].
   assert (Hlt : len (tree_data t) < 2 ^ 63) by (rewrite Hdata; lia).
   pose proof (wf_Repr H cs b refLen Hrl Hb Hbdef Hlen (u_log u) Hnc 7 t Hwf Hin Hlt) as Hrep.
-  pose proof (get_tree H (u_log u) Hnc t (Hin _ (tree_chunks_head H t)) Hlt) as Hget.
+  pose proof (get_tree H cs b refLen Hrl Hb (u_log u) Hnc t (Hin _ (tree_chunks_head H t)) Hlt) as Hget.
   exists (mkJ (len (tree_data t)) (of_list (tree_payload H t)) 0).
   unfold joiner_new. rewrite Hroot, Hget.
   split; [reflexivity|]. split; [reflexivity|]. rewrite <- Hdata.
   split; [exists 7%nat; exact Hrep | exact Hlt].
 Qed.
+
+(** decidable form of the collision hypothesis *)
+Definition nocoll_b (H : bytes -> bytes) (log : list bytes) : bool :=
+  forallb (fun p => forallb (fun q => implb (bytes_eqb (H p) (H q)) (bytes_eqb p q)) log) log.
+Lemma nocoll_b_sound H log : nocoll_b H log = true -> NoCollision H log.
+Proof.
+  unfold nocoll_b. intros Hb p q Hp Hq Heq. rewrite forallb_forall in Hb. specialize (Hb p Hp).
+  rewrite forallb_forall in Hb. specialize (Hb q Hq).
+  assert (He : bytes_eqb (H p) (H q) = true) by now apply bytes_eqb_eq.
+  rewrite He in Hb. cbn in Hb. now apply bytes_eqb_eq.
+Qed.
+
+(** the whole content through one ReadAt, and the reported size *)
+Theorem round_trip : forall (H : bytes -> bytes) (cs b refLen : nat),
+  (0 < refLen)%nat -> (2 <= b)%nat -> Z.of_nat b = Z.of_nat cs / Z.of_nat refLen ->
+  (forall x, length (H x) = refLen) ->
+  forall segs : list bytes,
+  (len (concat segs) + Z.of_nat cs + 8 < 2 ^ 63) ->
+  (length (chunks_of cs (concat segs)) <= b ^ 7)%nat ->
+  exists u, upload H cs b refLen segs = Ok u /\
+    (NoCollision H (u_log u) ->
+     exists st j, upload_and_open H cs b refLen segs = Some (st, j)
+       /\ j_span j = len (concat segs)
+       /\ (forall buf, len buf = len (concat segs) ->
+           exists ws, read_at (get_of_store st) (Z.of_nat cs) (Z.of_nat refLen) j (len buf) (len buf) 0
+                        = (len (concat segs), ws, if len (concat segs) =? 0 then REOF else RNil)
+                      /\ apply_writes buf ws = concat segs)).
+Proof.
+  intros H cs b refLen Hrl Hb Hbdef Hlen segs H63 Hcap.
+  destruct (read_back H cs b refLen Hrl Hb Hbdef Hlen segs H63 Hcap) as (u & Hu & Hrb).
+  exists u. split; [exact Hu|]. intros Hnc. destruct (Hrb Hnc) as (j & Ho & Hoff & Hst).
+  exists (store_of_log H (u_log u)), j. split; [exact Ho|].
+  assert (Hp : params_ok (Z.of_nat cs) (Z.of_nat refLen)) by (split; [lia | rewrite <- Hbdef; lia]).
+  pose proof (size_is_length _ _ _ j _ Hp Hst) as Hsz. split; [exact Hsz|].
+  intros buf Hbuf.
+  destruct (read_at_contract _ _ _ j _ Hp Hst (len buf) (len buf) 0 buf ltac:(lia) ltac:(lia) eq_refl) as [Heof Hin].
+  destruct (len (concat segs) =? 0) eqn:E0.
+  - apply Z.eqb_eq in E0. exists []. rewrite Heof by lia. rewrite E0. split; [reflexivity|].
+    cbn [apply_writes fold_left]. destruct buf; [|cbn [length] in Hbuf; lia]. destruct (concat segs); [reflexivity | cbn [length] in E0; lia].
+  - apply Z.eqb_neq in E0. destruct (Hin ltac:(lia)) as (ws & Hr & _ & Hb').
+    rewrite Hbuf, Z.sub_0_r, Z.min_id in Hr, Hb'. exists ws. split; [rewrite Hbuf; exact Hr|].
+    rewrite Hb', slice_all. rewrite skipn_all2 by lia. apply app_nil_r.
+Qed.
+
+Definition consts_ok_C01_b : bool :=
+  ((Consts.boson_ChunkSize =? 262144) && (Consts.boson_Branches =? 8192) && (Consts.boson_HashSize =? 32)
+   && (Consts.boson_SpanSize =? 8) && (Consts.boson_Branches =? Consts.boson_ChunkSize / Consts.boson_HashSize))%Z.
+
+Theorem read_back_at_source_constants : consts_ok_C01_b = true ->
+  forall (H : bytes -> bytes), (forall x, length (H x) = C02.Main.HashSize) ->
+  forall segs : list bytes,
+  (len (concat segs) < 2 ^ 63 - 262152) ->
+  exists u, upload H C02.Main.ChunkSize C02.Main.Branches C02.Main.HashSize segs = Ok u /\
+    (NoCollision H (u_log u) ->
+     exists j, upload_and_open H C02.Main.ChunkSize C02.Main.Branches C02.Main.HashSize segs = Some (store_of_log H (u_log u), j)
+       /\ j_off j = 0
+       /\ stored (get_of_store (store_of_log H (u_log u))) Consts.boson_ChunkSize Consts.boson_HashSize j (concat segs)).
+Proof.
+  intros Hc H Hlen segs Hsz.
+  unfold consts_ok_C01_b in Hc. rewrite !andb_true_iff in Hc. destruct Hc as ((((H1 & H2) & H3) & H4) & H5).
+  apply Z.eqb_eq in H1, H2, H3, H4, H5.
+  assert (Hc2 : C02.Main.consts_ok_C02_b = true) by (vm_compute; reflexivity).
+  destruct (C02.Main.ChunkSize_val Hc2) as [Hcs Hbr].
+  assert (Hhs : Z.of_nat C02.Main.HashSize = 32) by (unfold C02.Main.HashSize; rewrite H3; reflexivity).
+  destruct (read_back H C02.Main.ChunkSize C02.Main.Branches C02.Main.HashSize) with (segs := segs) as (u & Hu & Hrb); try assumption; try lia.
+  - rewrite Hbr, Hcs, Hhs. reflexivity.
+  - exact (C02.Main.source_capacity Hc2 (concat segs) Hsz).
+  - exists u. split; [exact Hu|]. intros Hnc. destruct (Hrb Hnc) as (j & Ho & Hoff & Hst). exists j.
+    split; [exact Ho|]. split; [exact Hoff|]. rewrite Hcs, Hhs in Hst. rewrite H1, H3. exact Hst.
+Qed.
+
+(** ** a complete toy run inside Coq: chunk size 4, branching 2, 2-byte references *)
+Definition ex_H (x : bytes) : bytes :=
+  [fold_left (fun a y => (a * 7 + y + 3) mod 256)%N x 5%N; fold_left N.lxor x (N.of_nat (length x))].
+Definition ex_segs : list bytes := [[10;11;12]; []; [13;14;15;16;17;18;19;20;21]; [22]]%N.
